@@ -688,7 +688,8 @@ class Interp:
             if (is_sym(a) and a.sort == 'str') or (is_sym(b) and b.sort == 'str'):
                 if op is ast.Add and (isinstance(a, str) or isinstance(b, str) or (is_sym(a) and is_sym(b))):
                     return Opaque('str')
-                self.type_error()
+                if op is ast.Mult and (is_intlike(a) or is_intlike(b)):
+                    return Opaque('str')        # repetition of an uninterpreted string
             if isinstance(a, (Opaque,)) or isinstance(b, (Opaque,)):
                 h = self.hooks.get('binop')
                 if h:
@@ -696,7 +697,9 @@ class Interp:
                     if r is not NotImplemented:
                         return r
                 raise Unsupported('binop on opaque value')
-            self.type_error()
+            if self._binop_is_type_error(op, a, b):
+                self.type_error()
+            raise Unsupported('binop %s on %s and %s' % (op.__name__, type(a).__name__, type(b).__name__))
         if op is ast.Add:
             return d.add(d.lift(a), d.lift(b))
         if op is ast.Sub:
@@ -761,6 +764,38 @@ class Interp:
         if op is ast.Pow:
             raise Unsupported('symbolic power')
         raise Unsupported('binop %s' % op.__name__)
+
+    @staticmethod
+    def _binop_is_type_error(op, a, b):
+        """True only where CPython certainly raises TypeError: a number against None / a string / a sequence under an
+        operator that has no meaning for that pair (repetition `*` and formatting `%` are meaningful)"""
+        def kind(x):
+            if x is None:
+                return 'none'
+            if is_intlike(x):
+                return 'num'
+            if isinstance(x, (str, bytes, bytearray)) or (is_sym(x) and x.sort == 'str'):
+                return 'text'
+            if isinstance(x, (list, tuple)):
+                return 'seq'
+            if isinstance(x, (dict, set, frozenset)):
+                return 'coll'
+            return None
+        ka, kb = kind(a), kind(b)
+        if ka is None or kb is None:
+            return False
+        if 'none' in (ka, kb):
+            return True
+        pair = {ka, kb}
+        if pair == {'num', 'text'} or pair == {'num', 'seq'}:
+            if op is ast.Mult:
+                return False
+            if op is ast.Mod and ka == 'text':
+                return False
+            return True
+        if pair == {'num', 'coll'}:
+            return True
+        return False
 
     def concrete_binop(self, op, a, b):
         import operator as o
